@@ -229,6 +229,53 @@ def format_oracle(a, sp):
     return dump_str(out)
 
 
+# ---------------------------------------------------------------- the xray-written library functions (include.rs)
+INCLUDE_FNS = {
+    "abs": "fn abs(i: int)", "sign": "fn sign(a: int)", "gcd": "fn gcd(a: int, b: int)", "lcm": "fn lcm(a: int, b: int)",
+    "factorial": "fn factorial(n: int", "floor_root": "fn floor_root(a: int", "ceil_root": "fn ceil_root(a: int",
+    "bisect": "fn bisect<T>(",
+}
+SNAPSHOT = os.path.join(os.path.dirname(os.path.abspath(__file__)), "c14_include_snapshot.json")
+
+
+def extract_include_fns():
+    """current source text (whitespace/comment-normalised) of the library functions the hand model mirrors"""
+    src = open(os.path.join(REPO, "src", "builtin", "include.rs")).read()
+    out = {}
+    for name, head in INCLUDE_FNS.items():
+        i = src.find(head)
+        if i < 0 or src.find(head, i + 1) >= 0:
+            out[name] = None     # missing or ambiguous
+            continue
+        j = src.index("{", i)
+        depth, k = 0, j
+        while True:
+            if src[k] == "{":
+                depth += 1
+            elif src[k] == "}":
+                depth -= 1
+                if depth == 0:
+                    break
+            k += 1
+        text = re.sub(r"//[^\n]*", "", src[i:k + 1])
+        out[name] = re.sub(r"\s+", " ", text).strip()
+    return out
+
+
+def iroot(a, b):
+    """floor of the b-th root of a >= 0 (b >= 1), by integer Newton/bisection — independent oracle"""
+    lo, hi = 0, 1
+    while hi ** b <= a:
+        hi *= 2
+    while hi - lo > 1:
+        m = (lo + hi) // 2
+        if m ** b <= a:
+            lo = m
+        else:
+            hi = m
+    return lo
+
+
 def pow_exp(rng, a, lang=False):
     """exponents that keep a**b computable: huge exponents only for bases 0, 1, -1"""
     if abs(a) <= 1:
@@ -433,12 +480,25 @@ def run(chk):
             want = ERR
         lcases.append(("b.digits", f"digits({lit(x)}, {lit(base)})", f"int b.digits {x} {base}", want, (x, base)))
         a, b = rng.choice(small_pool), rng.choice(small_pool)
-        lcases.append(("gcd", f"gcd({lit(a)}, {lit(b)})", None, o_int(math.gcd(a, b)), (a, b)))
-        lcases.append(("lcm", f"lcm({lit(a)}, {lit(b)})", None, o_int(abs(a * b) // math.gcd(a, b) if a and b else 0), (a, b)))
-        lcases.append(("abs", f"abs({lit(a)})", None, o_int(abs(a)), (a,)))
-        lcases.append(("sign", f"sign({lit(a)})", None, o_int((a > 0) - (a < 0)), (a,)))
-        f = rng.choice([0, 1, 2, 5, 20, 21, 25, 30, 50])
-        lcases.append(("factorial", f"factorial({f})", None, o_int(math.factorial(f)), (f,)))
+        lcases.append(("lib.gcd", f"gcd({lit(a)}, {lit(b)})", f"int lib.gcd {a} {b}", o_int(math.gcd(a, b)), (a, b)))
+        lcases.append(("lib.lcm", f"lcm({lit(a)}, {lit(b)})", f"int lib.lcm {a} {b}", o_int(abs(a * b) // math.gcd(a, b) if a and b else 0), (a, b)))
+        lcases.append(("lib.abs", f"abs({lit(a)})", f"int lib.abs {a}", o_int(abs(a)), (a,)))
+        lcases.append(("lib.sign", f"sign({lit(a)})", f"int lib.sign {a}", o_int((a > 0) - (a < 0)), (a,)))
+        f = rng.choice([0, 1, 2, 5, 20, 21, 25, 30, 50, 171, -1, -2**64])
+        lcases.append(("lib.factorial", f"factorial({lit(f)})", f"int lib.factorial {f} 1", o_int(math.factorial(f)) if f >= 0 else ERR, (f,)))
+        f, st = rng.choice([0, 1, 5, 6, 20, 33]), rng.choice([1, 2, 3, 7])
+        mf = 1
+        for t in range(f, 0, -st):
+            mf *= t
+        lcases.append(("lib.factorial", f"factorial({f}, {st})", f"int lib.factorial {f} {st}", o_int(mf), (f, st)))
+        ra = rng.choice([0, 1, 2, 3, 4, 8, 9, 24, 25, 26, 27, 63, 64, 65, 10**6, 10**6 - 1, 2**31, 2**32 - 1, 2**53 + 1, 2**62, 2**62 - 1,
+                         2**63 - 2, 3**39, 3**39 - 1, 7**22, rng.getrandbits(rng.choice([10, 30, 50, 62])), -1, -2**64])
+        rb = rng.choice([1, 2, 2, 2, 3, 3, 4, 5, 7, 13, 62, 64, 100])
+        lcases.append(("lib.floor_root", f"floor_root({lit(ra)}, {rb})" if rb != 2 or rng.random() < 0.5 else f"floor_root({lit(ra)})",
+                       f"int lib.floor_root {ra} {rb}", o_int(iroot(ra, rb)) if ra >= 0 else ERR, (ra, rb)))
+        ra = ra if ra != 2**63 - 2 else 2**63 - 1
+        cr = ERR if ra < 0 else o_int(0 if ra == 0 else iroot(ra - 1, rb) + 1)
+        lcases.append(("lib.ceil_root", f"ceil_root({lit(ra)}, {rb})", f"int lib.ceil_root {ra} {rb}", cr, (ra, rb)))
         ks = [rng.choice([0, 1, 2, 3, 5, 8, 13, 20, 30]) for _ in range(rng.choice([0, 1, 2, 3, 4]))]
         mn = math.factorial(sum(ks))
         for k in ks:
@@ -491,6 +551,17 @@ def run(chk):
                               {"src": replay["src"], "model": mline, "model_out": mres[i], "impl": d}, no_input=True)
     for c in lcases[:3]:
         chk.sample({"lang": c[1], "expected": c[3]})
+
+    # ------------------------------------------------------------------ drift guard for the hand model of include.rs
+    cur = extract_include_fns()
+    snap = json.load(open(SNAPSHOT)) if os.path.exists(SNAPSHOT) else {}
+    for name in INCLUDE_FNS:
+        chk.count("include-snapshot:" + ("same" if cur.get(name) == snap.get(name) and cur.get(name) else "changed"))
+        if not cur.get(name) or cur.get(name) != snap.get(name):
+            chk.violation(f"tie:include:{name}",
+                          f"the source of `{name}` in src/builtin/include.rs is no longer the text the hand model XrayModel/IntLib.lean was "
+                          f"written from (the Python-oracle cases above ran against the current code): now {cur.get(name)!r}, modelled {snap.get(name)!r}",
+                          {"function": name, "current": cur.get(name), "modelled": snap.get(name)}, no_input=True)
 
     return chk.finish(rule="operand tuples over the boundary pool {0,±1,small,±2^31,±2^53,±2^62..2^65,±2^127,±2^128 and neighbours, random 1-400 bit} "
                            "for every LazyBigint operation (direct) and every integer builtin (through the language); "
